@@ -1,5 +1,6 @@
 """ Module for ENAEdge class """
 from __future__ import annotations
+import itertools
 from typing import TYPE_CHECKING
 
 
@@ -15,6 +16,13 @@ class TVGEdge():
         type (str): The edge type. Must be either of orf_start, orf_end,
             variant_start, variant_end, cleave, or reference
     """
+    _serial_counter = itertools.count()
+
+    def __hash__(self):
+        """ Edges are kept in sets: hash by creation order, not by memory
+        address, to keep the iteration order of those sets reproducible. """
+        return self._serial
+
     def __init__(self, in_node:TVGNode, out_node:TVGNode,
             _type:str):
         """ Constructor for Edge
@@ -25,6 +33,7 @@ class TVGEdge():
             type (str): The edge type. Must be either of orf_start, orf_end,
                 mutation_start, mutation_end, cleave, or reference
         """
+        self._serial = next(TVGEdge._serial_counter)
         self.in_node = in_node
         self.out_node = out_node
         edge_types = ['variant_start', 'variant_end', 'reference']
